@@ -213,6 +213,12 @@ func (s *serverStream) SendHeader(md metadata.MD) error {
 		return errors.New("headers already sent")
 	default:
 	}
+	if err := s.ctx.Err(); err != nil {
+		// like gRPC, nothing can be sent any more once the call has ended for the client (it cancelled, or its
+		// deadline passed): headers that were only staged by then never reach it, neither through a late
+		// SendHeader / SendMsg nor through the flush in Close when the handler returns
+		return status.FromContextError(err).Err()
+	}
 	s.header = metadata.Join(s.header, md)
 	close(s.headerC)
 	return nil
